@@ -75,7 +75,9 @@ def errors(ctx, rule="C10.errors"):
     for r in raises:
         # reached only when the key is neither a known name nor a known parameter
         pf = path_facts(cfb, cfb.find(r)[0])
-        neg = [a for a, t in pf if not t and "free_params" in ast.unparse(expand_locals(b.node, a))]
+        # (the truth orientation of a fact depends on how the test is written - `if temp:` / `if temp != 0:` / `if temp is None:` -
+        # so only the dependence on both look-ups is required)
+        neg = [a for a, t in pf if "free_params" in ast.unparse(expand_locals(b.node, a))]
         if len(neg) >= 2:
             ok = True
     ctx.ob(rule, b.site, ok, "" if ok else "bind_params no longer raises ParameterError for an unknown key", role="unknown-key",
